@@ -156,7 +156,8 @@ func panicScenario(mode string, big bool) *Desc {
 func panicChannelScenario(mode string) *Desc {
 	d := base("panic-channel-chord", mode)
 	d.Channel = 2
-	d.Mappings = []MapDesc{{Name: "M0", Keys: km{K1: {60, 0}, K4: {60, 1}}}}
+	// (the panic key also has a note in the mapping: the action wins, as for every key with both roles)
+	d.Mappings = []MapDesc{{Name: "M0", Keys: km{K1: {60, 0}, K4: {60, 1}, PA: {70, 0}}}}
 	acts(d, PA, "panic", CU, "channel_up", CD, "channel_down")
 	d.ChSet = []int{0, 1, 2}
 	return d
@@ -380,6 +381,7 @@ func jobsFor(prop, tier string) []job {
 	case "C14":
 		for _, d := range exitScenarios(big) {
 			add(d, true, cap, "exit")
+			js[len(js)-1].sc.BeyondExit = true
 		}
 	case "C05":
 		for _, m := range []string{"interrupt", "off"} {
@@ -388,6 +390,7 @@ func jobsFor(prop, tier string) []job {
 			}
 			add(panicScenario(m, big), false, cap)
 		}
+		add(panicChannelScenario("interrupt"), false, cap)
 		for _, d := range ccScenarios(big) {
 			add(d, false, cap)
 		}
@@ -410,6 +413,8 @@ func jobsFor(prop, tier string) []job {
 			add(d, false, cap, "keyemu")
 		}
 		add(keyEmuSubScenario(), false, cap, "keyemu")
+		add(keyEmuCoincideScenario("interrupt"), false, cap, "keyemu")
+		add(keyEmuCoincideScenario("off"), false, cap, "keyemu")
 	}
 	return js
 }
